@@ -339,6 +339,12 @@ class Report:
         }
         if known_hit:
             ev["coverage"]["known_findings_reproduced"] = sorted(known_hit)
+        try:
+            import chk_read
+            if chk_read.FUEL_ARTEFACTS:
+                ev["coverage"]["model_fuel_exhausted_tolerated"] = len(chk_read.FUEL_ARTEFACTS)
+        except Exception:  # noqa: BLE001
+            pass
         with open(os.path.join(VERIF, "evidence", "%s.json" % self.prop), "w") as f:
             json.dump(ev, f, indent=1, default=str)
         if fresh:
